@@ -198,13 +198,13 @@ def mapaccess_check(ctx, which):
     recs = ctx.path("recs.ndjson")
     nrand = 3000 if q else 40000
     st = run_vh(ctx, ["c03", "--cases", allcases, "--out", recs, "--random", nrand, "--seed", ctx.seed,
-                      "--max-events", 40 if q else 70, "--focus", which])
+                      "--max-events", 40 if q else 70, "--focus", which, "--discard-every", 1 if q else 8])
     ctx.evaluations += st["records"]
     ctx.distinct_nontrivial += st["nontrivial"] if which == "C03" else st["nontrivial_dup"]
     ctx.samples += st["samples"]
     ctx.notes["documents_with_merge_key"] = st["nontrivial"]
     ctx.notes["documents_with_repeated_key"] = st["nontrivial_dup"]
-    mism = run_tv(ctx, "TV_MapAccess", recs, timeout=3000)
+    mism = run_tv(ctx, "TV_MapAccess", recs, timeout=3000 if q else 9000)
     # action-level binding: the step log of MA::next_key_seed (branch taken, queue / merge-stack / seen-set sizes after every
     # iteration) replayed through MapAccessMachine, for every enumerated root mapping under every policy plus random mappings
     trecs = ctx.path("ma_traces.ndjson")
